@@ -6,8 +6,18 @@
 
 abbrev Str := List Char
 
-/-- string literal as `List Char` -/
-abbrev L (s : String) : Str := s.toList
+/-- a (non-literal) `String` as `List Char` -/
+abbrev Ls (s : String) : Str := s.toList
+
+open Lean in
+/-- `L "abc"`: a string literal as an explicit `List Char` literal `['a','b','c']` (expanded at
+    elaboration time, so that comparisons of keys are plain structural list comparisons) -/
+macro "L" s:str : term => do
+  let cs := s.getString.toList
+  let mut t ← `(([] : List Char))
+  for c in cs.reverse do
+    t ← `(List.cons $(Syntax.mkCharLit c) $t)
+  return t
 
 namespace Py
 
